@@ -14,6 +14,10 @@ def key_fn(case, obs, verdict):
         if "net code" in verdict or "saw no error" in verdict:
             what = "net-code"
         return "shoot:%s-gun:%s:%s" % ({"h": "http", "c": "connect"}.get(f[1], f[1]), f[2], what)
+    if f[0] == "cfggun":
+        return "configured-gun:%s:auto-tag-%s:sample-fields" % (f[1], f[2])
+    if f[0] == "gjson":
+        return "grpc-json-provider:sample-tag-of-other-ammo"
     if f[0] == "phout":
         return "phout-aggregator:recycled-sample-codes"
     if f[0] in ("hscen", "gscen", "gshoot"):
@@ -41,6 +45,9 @@ def run(ctx):
             "correspondence harness harness/cmd/hC10 (real ConvertGrpcStatus, BaseGun.Shoot with scripted client, Sample.SetErr, ProviderBase.NextID; "
             "guns.go: real NewHTTP1Gun / NewConnectGun / http_scenario gun / grpc gun / grpc scenario gun against the in-process raw-TCP target+CONNECT proxy "
             "and gRPC target of harness/internal/a18, every status 200-599, refused / reset / stalled / truncated / reset-mid-body exchanges)",
+            "cfggun / gjson cases: components imported into the default registry, a minimal YAML section decoded by the real config decoder and plugin hooks into a gun factory / provider "
+            "(http, http2 against an in-process TLS h2 target, connect, http/scenario, http2/scenario, grpc, grpc/scenario; grpc/json provider over long heterogeneous files with Release); "
+            "expected auto-tag settings = the documented defaults overlaid by the section",
             "modelled, not verified: which Go error values the network stack produces for a fault (the harness records the shape of the error value the gun got "
             "and the model's get_errno is applied to it); the errno Linux yields per fault (refused 111, stall 110, reset 104, short body / refused CONNECT 999) is a table in the OCaml driver; "
             "errors.Cause/Underlying unwrapping is modelled by the EWrap constructor",
